@@ -3,6 +3,7 @@ import CelmaVerif.Lemmas.RulesComplete
 import CelmaVerif.Lemmas.RulesLevel
 import CelmaVerif.Lemmas.ParseSmall
 import CelmaVerif.Lemmas.ParseProps
+import CelmaVerif.Lemmas.FormatsExample
 /-
   C03 — every command line that obeys the declared rules is accepted.
   `Obeys` judges the order-sensitive rules in the documented sense: an exclusion forbids *later* key
@@ -10,7 +11,10 @@ import CelmaVerif.Lemmas.ParseProps
   `C03_complete_partial` is stated over the grammar `Spells` (the forms the property lists),
   `C03_complete_words_partial` over `SpellsPlus` (every form the handler accepts: also the separator
   `--`, positional values, `!` — see Props/C01.lean).  Partial: destinations outside the modelled
-  fragment, formats and display options are not modelled.
+  fragment; of the formats the case formatters `uppercase()` / `lowercase()` are modelled (`ArgDef.fmt`,
+  `C03_format_and_mandatory`), `anycase`, format functions, positional formatters and the display options are not.
+  The configurations of every theorem below may carry a formatter on any argument: `Obeys` does not mention it,
+  so a formatter never decides whether a line is accepted.
 -/
 namespace CelmaVerif.Props.C03
 open CelmaVerif CelmaVerif.ProgArgs CelmaVerif.Keys
@@ -98,6 +102,102 @@ example : LevelValuesOk cfgLevel.args[0] 0 false false (valsOf 0 levelUses) ∧
   ⟨level_levels 0 _ _ rfl rfl rfl,
    C03_complete_partial cfgLevel cfgLevel_wf [.level 0] (by decide) levelUses levelWords "prog".toList
     level_spells level_obeys level_notDeprecated level_levels⟩
+
+
+/-! ### value formatters (`addFormat( uppercase())` / `addFormat( lowercase())`) -/
+
+/-- **A format never makes a rule-obeying line unacceptable, and the destination holds the formatted
+    value.**  For a well-formed configuration, whatever formatters, checks, cardinalities and constraints its
+    arguments carry: a command line that obeys every declared rule is accepted — in particular one that GIVES a
+    mandatory argument which has a formatter (`Obeys.mandatory` asks for a use of it, nothing about `fmt`) — and
+    every string argument `i` that was given ends with its last value formatted by its own formatter
+    (`d.fmt.apply`: upper-cased, lower-cased, or as typed when it has none) and is recorded as "was used"
+    (`mHasValueSet`, what the mandatory check at the end reads).  The checks of the argument are judged on the
+    text as typed (`ScalarValueOk` inside `Obeys`: `TypedArg< T>::assign` calls `check( value)` before
+    `format( valCopy)`). -/
+theorem C03_format_and_mandatory (cfg : Cfg) (wf : cfg.WellFormed) (inits : List DVal)
+    (hin : cfg.args.length ≤ inits.length) (us : List Use) (ws : List Word) (prog : Word)
+    (sp : Spells cfg none us ws) (ob : Obeys cfg inits us)
+    (notDeprecated : ∀ u ∈ us, ∀ d, cfg.args[u.arg]? = some d → d.deprecated = false)
+    (levels : ∀ (i : Nat) (d : ArgDef) (v : DVal), cfg.args[i]? = some d → d.kind = .level →
+      inits[i]? = some v → LevelValuesOk d (levelOf v) false false (valsOf i us)) :
+    ∃ hf, evalArguments cfg (cfg.initState inits) {} (prog :: ws) = .ok hf ∧
+      ∀ (i : Nat) (d : ArgDef) (v : DVal) (vs : List Word) (last : Word), cfg.args[i]? = some d → d.kind = .str →
+        inits[i]? = some v → valsOf i us = vs ++ [last] →
+        ∃ st, hf.args[i]? = some st ∧ st.dest = .str (d.fmt.apply last) ∧ st.hasValue d.kind = true := by
+  obtain ⟨hf, he⟩ := rules_complete wf hin ob notDeprecated levels
+  have hl : (cfg.initState inits).lastArg = none := rfl
+  refine ⟨hf, ?_, ?_⟩
+  · rw [spells_eval cfg (cfg.initState inits) prog (by rw [hl]; exact sp)]; exact he
+  · intro i d v vs last hi hk hv hvals
+    obtain ⟨st, hst, hd⟩ := dests_denote hin he hi hv (by rw [hk]; intro h; cases h)
+    refine ⟨st, hst, ?_, ?_⟩
+    · rw [hd, hvals]; simp [denote, hk]
+    · -- the argument was used: `hasValueSet` (invariant `ValInv.given` of the rules layer)
+      obtain ⟨h1, ha, hend⟩ := evalUses_ok he
+      obtain ⟨_, _, _, hh⟩ := endChecks_ok hend
+      have hus : h1.uses = us := by simpa [Cfg.initState] using applyUses_uses us _ _ ha
+      have inv : ValInv cfg inits h1 := valInv_run hin ha
+      have hused : ∃ u ∈ h1.uses, u.arg = i := by
+        rw [hus]
+        have hm : last ∈ valsOf i us := by rw [hvals]; simp
+        unfold valsOf at hm
+        obtain ⟨u, hu, _⟩ := List.mem_map.1 hm
+        exact ⟨u, (List.mem_filter.1 hu).1, by simpa using (List.mem_filter.1 hu).2⟩
+      obtain ⟨st', hst', hset⟩ := inv.given i d hi (Or.inr hk) hused
+      subst hh
+      have : st = st' := by
+        have := hst.symm.trans hst'
+        exact Option.some.inj this
+      subst this
+      rw [hk]; exact hset
+
+/-- **The case formatters are invisible for an `int` destination**: `lexical_cast< int>` of the formatted copy
+    is `lexical_cast< int>` of the text as typed (same value, or refused alike) — the model's `int` branches
+    therefore do not mention the formatter, and "was used" is recorded there on the one path there is. -/
+theorem C03_format_int_invisible (f : Fmt) (v : Word) : lexCastInt (f.apply v) = lexCastInt v :=
+  lexCastInt_fmt f v
+
+/-- **One assignment, whatever the formatter**: an accepted value of a string or int argument records the
+    argument as used (the statement the mandatory check depends on), the string destination gets the
+    formatted text, the int destination the converted value. -/
+theorem C03_format_assign_records_use (d : ArgDef) (st st' : ArgSt) (v : Word) (e : assignDest d st v = .ok st') :
+    (d.kind = .str → st'.dest = .str (d.fmt.apply v) ∧ st'.hasValueSet = true) ∧
+    (d.kind = .int → st'.dest = .int (castOr0 v) ∧ st'.hasValueSet = true) := by
+  have h := assignDest_effect e
+  constructor <;> intro hk <;> rw [hk] at h <;> exact h
+
+open CelmaVerif.ProgArgs.FormatExample in
+/-- non-vacuity, all hypotheses of `C03_format_and_mandatory` together: `FormatExample.cfg` has the mandatory
+    `-n,--name` (string, `uppercase()`, `values( "foo,bar")`, `maxLength( 3)`, at most once), the mandatory
+    `-m,--mode` (string, `lowercase()`), the mandatory `-c,--count` (int, `uppercase()`), the flag `-q`; the line
+    `-n foo --mode=FAST -c42 -q` obeys every rule -/
+example : FormatExample.cfg.WellFormed ∧ Spells FormatExample.cfg none FormatExample.uses FormatExample.words ∧
+    Obeys FormatExample.cfg FormatExample.inits FormatExample.uses :=
+  ⟨cfg_wf, spells, obeys⟩
+
+open CelmaVerif.ProgArgs.FormatExample in
+/-- … hence, by the theorem, it is accepted and `--name` holds `FOO` (argument 0: `valsOf` = `[foo]`) -/
+example : ∃ hf, evalArguments FormatExample.cfg (FormatExample.cfg.initState FormatExample.inits) {}
+      ("prog".toList :: FormatExample.words) = .ok hf ∧
+    ∃ st, hf.args[0]? = some st ∧ st.dest = .str "FOO".toList ∧ st.hasValue .str = true := by
+  obtain ⟨hf, he, hd⟩ := C03_format_and_mandatory FormatExample.cfg cfg_wf FormatExample.inits (by decide)
+    FormatExample.uses FormatExample.words "prog".toList spells obeys notDeprecated levels
+  exact ⟨hf, he, hd 0 _ (.str []) [] "foo".toList rfl rfl rfl (by decide)⟩
+
+/-- the same line evaluated: `FOO`, `fast`, 42, flag set -/
+example : FormatExample.dests (evalArguments FormatExample.cfg (FormatExample.cfg.initState FormatExample.inits) {}
+      ("prog".toList :: FormatExample.words)) =
+    some [.str "FOO".toList, .str "fast".toList, .int 42, .flag true] := by decide +kernel
+
+/-- the checks see the text AS TYPED: `-n FOO` is refused by `values( "foo,bar")` although the stored value
+    would be `FOO` either way (`check( value)` precedes `format( valCopy)` in `TypedArg< T>::assign`) -/
+example : FormatExample.dests (evalArguments FormatExample.cfg (FormatExample.cfg.initState FormatExample.inits) {}
+      ["prog".toList, "-n".toList, "FOO".toList, "--mode=FAST".toList, "-c42".toList]) = none := by decide +kernel
+
+/-- without the mandatory `--name` the line is refused: the mandatory rule is not vacuous here -/
+example : FormatExample.dests (evalArguments FormatExample.cfg (FormatExample.cfg.initState FormatExample.inits) {}
+      ["prog".toList, "--mode=FAST".toList, "-c42".toList]) = none := by decide +kernel
 
 /-! ### the same for every form the handler accepts (`SpellsPlus`) -/
 
